@@ -505,6 +505,16 @@ def handle (cmd : String) (args : List Sx) : Option String :=
     pure (showLog evs ++ " " ++ match out with
       | .ok v => showONat v
       | .error e => showExc e)
+  -- the same `Attachment` written twice (`Attachment.source` builds a new context manager each time: a0bb005)
+  | "attach2", [f, u] => do
+    let fetcher ← fetcher? f
+    let u ← str? u
+    let (evs1, out1) := writeAttachment fetcher u
+    let (evs2, out2) := writeAttachment fetcher u
+    let sh := fun (out : Except Exc (Option Nat)) => match out with
+      | .ok v => showONat v
+      | .error e => showExc e
+    pure (showLog (evs1 ++ evs2) ++ " " ++ sh out1 ++ " " ++ sh out2)
   | "annots", [f, .list us] => do
     let (evs, out) := annotAttachments (← fetcher? f) [] (← allSome str? us)
     pure (showLog evs ++ " " ++ match out with
